@@ -141,10 +141,39 @@ func Load(dir string) (*Prog, error) {
 				}
 				p.Funcs[name] = fn
 				p.ByObj[obj] = fn
+				modFuncNames[name] = true
+				modBaseCount[ShortPkg(pk.PkgPath)+"."+fd.Name.Name]++
 			}
 		}
 	}
 	return p, nil
+}
+
+// Lookup finds a module function by short name ("pkg.Func" or "pkg.Type.Method").  A function that was turned into
+// a method, or a method into a function (same package, same name), is still the same anchor: when the exact name is
+// gone and exactly one function of that package carries the name, that one is returned.
+func (p *Prog) Lookup(name string) *Func {
+	if f := p.Funcs[name]; f != nil {
+		return f
+	}
+	parts := strings.Split(name, ".")
+	if len(parts) < 2 {
+		return nil
+	}
+	pkg, base := parts[0], parts[len(parts)-1]
+	var found *Func
+	n := 0
+	for k, f := range p.Funcs {
+		kp := strings.Split(k, ".")
+		if kp[0] == pkg && kp[len(kp)-1] == base {
+			found = f
+			n++
+		}
+	}
+	if n == 1 {
+		return found
+	}
+	return nil
 }
 
 func recvTypeName(e ast.Expr) string {
